@@ -8,6 +8,7 @@
     Statements only; proofs in Mailbox/MbOrder.v. *)
 From Coq Require Import List NArith ZArith Bool.
 From Vivid Require Import Mailbox.MbModel Mailbox.MbSpec Mailbox.MbSpec2 Mailbox.MbInv Mailbox.MbOrder.
+From Vivid Require Import Mailbox.MbFine Mailbox.MbFineThm.
 Import ListNotations.
 
 (** ============================ (6) FIFO ============================ *)
@@ -82,6 +83,33 @@ Theorem C02_pushed_is_queued ths sched A j m s0 e1 C :
   run_trace2 sched (init ths) = A ++ (j, SPush true m, s0) :: e1 :: C -> In m (sq (snd e1)).
 Proof. exact (pushed_is_queued ths sched A j m s0 e1 C). Qed.
 
+(** ============================ (8) with the ring queue inside the model ============================ *)
+
+(** Mailbox/MbFine.v: the same mailbox with internal/queues/ring.go modelled step by step (Lock, atomic add / load of
+    len, index arithmetic, growth with the rotated copy) instead of atomic queue operations; by C01_fine_refines_coarse
+    (Properties/C01_fine.v) everything above holds of it.  Stated on the fine machine itself: for every initial size
+    >= 1, every population of senders and every schedule - preemptions inside Push and Pop, any number of growths -
+    the messages of a kind are handled in the order of the atomic adds of their Pushes (the order in which the
+    critical sections of Push ran).  One sender's Enqueue calls are sequential, hence per-sender FIFO. *)
+Theorem C02_fine_fifo_prefix b size ths sched :
+  (1 <= size)%nat -> forallb fenv_pc ths = true ->
+  exists rest, fpush_order b (frun_trace sched (finit size ths)) = flog_of b (frun sched (finit size ths)) ++ rest.
+Proof. exact (ffifo_prefix b size ths sched). Qed.
+
+(** Why this needed a proof and not the sentence "every access is under the mutex" (the former assumption M4):
+    WITHOUT the single-consumer discipline that the mailbox's status word provides (C01_fine_one_owner) the RingQueue
+    is not linearizable.  New(2); Push(7); then two overlapping Pops: both emptiness checks (outside the mutex) see
+    len = 1; the first critical section takes 7; the second advances head past tail, hands out the nil slot with
+    ok = true - which [msg.(vivid.Envelop)] would turn into a crash - and leaves len = -1. *)
+Theorem C02_ring_two_consumers_refuted :
+  exists q1 q2 qa qb va vb,
+    q_push_pre (q_new 2) = Some q1 /\ q2 = q_push_fin 7%N q1 /\
+    qlen q2 = 1%Z /\
+    q_pop_pre q2 = Some (va, qa) /\ va = Some 7%N /\
+    q_pop_pre (q_pop_fin qa) = Some (vb, qb) /\ vb = None /\
+    qlen (q_pop_fin qb) = (-1)%Z.
+Proof. exact two_consumers_refuted. Qed.
+
 (** ============================ non-vacuity / tightness ============================ *)
 
 (** two user messages and one system message from three senders: handled system first, users in push order *)
@@ -109,6 +137,18 @@ Proof.
   intros e [<-|[<-|[<-|[]]]]; cbn; auto.
 Qed.
 
+(** three senders, initial size 1 (the user ring grows 1 -> 2 -> 4 while the consumer is inside its first Pop):
+    handled in the order of the adds, which is not the order of the Lock attempts *)
+Example C02_fine_ex_growth_order :
+  let ths := [FPushLock false 1%N; FPushLock false 2%N; FPushLock false 3%N] in
+  let sched := [0;0;0;0;0; 3;3;3;3; 2;2;2; 3;3; 1;1;1; 3;3;3;3;3;3;3;3;3;3;3;3;3;3;3;3;3;3;3;3;3;3;3;3;3;3]%nat in
+  fpush_order false (frun_trace sched (finit 1 ths)) = [1%N; 3%N; 2%N] /\
+  flog (frun sched (finit 1 ths)) = [(false, 1%N); (false, 3%N); (false, 2%N)] /\
+  qmod (fuq (frun sched (finit 1 ths))) = 4%nat.
+Proof. vm_compute. repeat split. Qed.
+
+Print Assumptions C02_fine_fifo_prefix.
+Print Assumptions C02_ring_two_consumers_refuted.
 Print Assumptions C02_fifo_user.
 Print Assumptions C02_fifo_system.
 Print Assumptions C02_fifo_prefix.
